@@ -508,19 +508,33 @@ def run(ctx):
                  "20% with a missing length) x stop_on_failure; non-trivial = both kinds of permutation present")
     # ---------------------------------------------------------------- clean-up
     cands = []
-    for (A, m, n) in seeded + [small[i] for i in rng.sample(range(len(small)), 200 if quick else 1200)]:
+    for (A, m, n) in seeded + [small[i] for i in rng.sample(range(len(small)), 900 if quick else 4000)]:
         SG = _try_bisc(A, m, n)
         if SG is not None and _cleanup_applicable(SG):
             cands.append((A, m, n))
-        if len(cands) >= (400 if quick else 2500):
+        if len(cands) >= (1200 if quick else 5000):
             break
     rng.shuffle(cands)
     clean = []
-    for (A, m, n) in cands[: 34 if quick else 110]:
+    # (widened after seeded change C17_c - a stale per-permutation flag in clean_up - was missed: it needs
+    # learned patterns on two lengths and a particular order of the bad permutations; most inputs take
+    # milliseconds, the few whose monitor lists blow up are cut off and counted as trivial)
+    for (A, m, n) in cands[: 400 if quick else 1600]:
         bm = rng.choice((n, n, min(n + 1, 5)))
-        clean.append((A, m, n, bm, rng.choice((0, 0, 1, 2)), rng.choice((0, 0, 3))))
+        clean.append((A, m, n, bm, rng.choice((0, 0, 0, 1, 2)), rng.choice((0, 0, 0, 3))))
+    # structured family: the empty and the one-point permutation, a non-empty set of length-2 permutations, at most
+    # two of length 3, nothing of length 4; learned and cleaned up to length 4 against the FULL complement
+    # (patterns on several lengths, many bad permutations per length)
+    P2, P3 = list(D.perms(2)), list(D.perms(3))
+    fam = []
+    for k2 in (1, 2):
+        for c2 in itertools.combinations(P2, k2):
+            for k3 in (0, 1, 2):
+                for c3 in itertools.combinations(P3, k3):
+                    fam.append((list(D.perms(0)) + list(D.perms(1)) + list(c2) + list(c3), 4, 4, 4, 0, 0))
+    clean += fam if not quick else fam
     if clean:
-        ctx.run("C17.cleanup", clean, chunk=1, timeout_s=300,
+        ctx.run("C17.cleanup", clean, chunk=4, timeout_s=45,
                 rule=f"{len(clean)} seeded (A, m, n) with a learned pattern, <= {MAX_PATTERNS_CLEANUP} learned patterns and <= "
                      f"{MAX_MONITORS} initial monitors; B = complement of A up to bm in (n, n+1) (or two thirds of it), "
                      f"limit_monitors in (0, #patterns, #patterns+1); non-trivial = a basis is returned")
